@@ -185,6 +185,7 @@ def execute(prog):
 
     for c in toys:
         lc.curves.append(c)
+    rxbufs = {}
     try:
         nodes = []
         models = []
@@ -442,10 +443,11 @@ def execute(prog):
                     if want:
                         m.pub = saved
                     _preload(lk, eo, data, how, rnd, out)
+                    rx = _rxbuf(rxbufs, i, data, rnd, out)
                     if how == "bytes":
-                        fn = lambda: eo.load_received_public_key_bytes(data)  # noqa
+                        fn = lambda: eo.load_received_public_key_bytes(rx)  # noqa
                     elif how == "der":
-                        fn = lambda: eo.load_received_public_key_der(data)  # noqa
+                        fn = lambda: eo.load_received_public_key_der(rx)  # noqa
                     else:
                         pemd = mder.pem(data, "PUBLIC KEY")
                         fn = lambda: eo.load_received_public_key_pem(pemd)  # noqa
@@ -502,9 +504,10 @@ def execute(prog):
                         want = (lk.MalformedPointError,)
                         core.bump(out["probes"], "remote_rejected")
                     _preload(lk, eo, data, how, rnd, out)
-                    fn = (lambda: eo.load_received_public_key_bytes(data)) \
+                    rx = _rxbuf(rxbufs, i, data, rnd, out)
+                    fn = (lambda: eo.load_received_public_key_bytes(rx)) \
                         if how == "bytes" else \
-                        (lambda: eo.load_received_public_key_der(data))
+                        (lambda: eo.load_received_public_key_der(rx))
                     expect(i, "byz_pub_" + how, fn, want, lambda r_: None)
             elif name in ("secret", "secret_bytes"):
                 want, x = secret_model(m)
@@ -657,6 +660,20 @@ def _curve_spec(spec):
     G2 = ec.mul(mc, int(k), mc.G)
     return ec.MCurve("%s_regen%s" % (base, k), mc.p, mc.a, mc.b, G2[0], G2[1],
                      mc.n, mc.h, tuple(mc.oid) + (int(k),))
+
+
+def _rxbuf(rxbufs, node, data, rnd, out):
+    """A node may receive into one buffer object per message size and hand
+    that same object (overwritten in place) to the loader every time."""
+    if rnd.random() >= 0.4 or not data:
+        return data
+    key = (node, len(data))
+    if key not in rxbufs:
+        rxbufs[key] = bytearray(len(data))
+    else:
+        core.bump(out["probes"], "receive_buffer_reused")
+    rxbufs[key][:] = data
+    return rxbufs[key]
 
 
 def _preload(lk, eo, data, how, rnd, out):
